@@ -88,8 +88,8 @@ Proof. induction l1 as [|[c' k] t IH]; simpl; [reflexivity|]. destruct (Nat.eqb 
 Lemma setstate_classes_bridge klass cells c : In c cells ->
   lookup c (gen_c19_setstate_classes klass cells) = Some klass.
 Proof.
-  unfold gen_c19_setstate_classes. induction cells as [|x t IH]; intros H; [destruct H|].
-  cbn [flat_map]. rewrite lookup_app. cbv zeta.
+  unfold gen_c19_setstate_classes. cbv zeta. induction cells as [|x t IH]; intros H; [destruct H|].
+  cbn [flat_map]. rewrite lookup_app.
   destruct (Nat.eq_dec c x) as [->|Hne].
   - cbn [lookup]. rewrite Nat.eqb_refl. reflexivity.
   - destruct H as [H|H]; [congruence|]. cbn [lookup]. apply Nat.eqb_neq in Hne. rewrite Hne. apply IH. exact H.
@@ -100,15 +100,15 @@ Qed.
 Lemma setstate_descr_bridge lname layers :
   gen_c19_setstate_descr lname layers = map (fun l => (lname l, l)) layers.
 Proof.
-  unfold gen_c19_setstate_descr. induction layers as [|x t IH]; [reflexivity|].
-  cbn [flat_map map]. cbv zeta. rewrite IH. reflexivity.
+  unfold gen_c19_setstate_descr. cbv zeta. induction layers as [|x t IH]; [reflexivity|].
+  cbn [flat_map map]. rewrite IH. reflexivity.
 Qed.
 
 Lemma setstate_props_bridge lname layers :
   gen_c19_setstate_props lname layers = map fst (gen_c19_setstate_descr lname layers).
 Proof.
-  rewrite setstate_descr_bridge, map_map. unfold gen_c19_setstate_props.
-  induction layers as [|x t IH]; [reflexivity|]. cbn [flat_map map fst]. cbv zeta. rewrite IH. reflexivity.
+  rewrite setstate_descr_bridge, map_map. unfold gen_c19_setstate_props. cbv zeta.
+  induction layers as [|x t IH]; [reflexivity|]. cbn [flat_map map fst]. rewrite IH. reflexivity.
 Qed.
 
 (* ------------------------------------------------------------------ copy_space written with the translated pieces *)
